@@ -338,6 +338,9 @@ func main() {
 	case "c09":
 		runC09(*aux, *in, *seed, b)
 		return
+	case "c10":
+		runC10(*in, *seed, b)
+		return
 	}
 	f, err := os.Open(*in)
 	if err != nil {
